@@ -93,7 +93,13 @@ def clouds_fn(case):
         pc = float(layerP[k] ** 0.5 * lev[k + 1] ** 0.5)
     fx.reset_caches()
     install()
-    m = fx.build_model(base_spec(case, other + [['clouds', pc]]))
+    if case.get('late'):
+        # the deck is added to the already built and evaluated model (it then stands after the other sources)
+        m = fx.build_model(base_spec(case, other))
+        m.model()
+        m.add_contribution(fx.make_contrib(['clouds', pc]))
+    else:
+        m = fx.build_model(base_spec(case, other + [['clouds', pc]]))
     g, d, t, _ = m.model()
     P = np.asarray(m.pressureProfile, float)
     r.eq(P, layerP, 'layer-pressures', 'setup/layer-pressure', rtol=1e-12)
@@ -106,14 +112,20 @@ def clouds_fn(case):
     t0 = np.asarray(t0, float)
     r.check(bool(np.all(np.isinf(sig[opaque])) and np.all(sig[~opaque] == 0)), 'clouds-sigma',
             'clouds/sigma/%s' % let.rstrip('0123456789'), sigma=sig[:, 0], opaque=opaque)
-    r.check(bool(np.all(t[opaque] == 0)), 'clouds-opaque-below', 'clouds/opaque/%s' % let.rstrip('0123456789'),
-            trans=t[:, 0], opaque=opaque)
+    if case.get('late'):
+        # the deck stands after the gas absorption: a layer the gas alone has already taken beyond tau = 10 at every
+        # wavenumber may skip it (the licensed cut-off), so "opaque" means no more than exp(-10) here
+        r.check(bool(np.all(t[opaque] <= math.exp(-10) * (1 + 1e-9))), 'clouds-opaque-below',
+                'clouds/opaque-late/%s' % let.rstrip('0123456789'), trans=t[:, 0], opaque=opaque)
+    else:
+        r.check(bool(np.all(t[opaque] == 0)), 'clouds-opaque-below', 'clouds/opaque/%s' % let.rstrip('0123456789'),
+                trans=t[:, 0], opaque=opaque)
     r.eq(t[~opaque], t0[~opaque], 'clouds-untouched-above', 'clouds/untouched/%s' % let.rstrip('0123456789'),
          rtol=1e-13)
     zb = np.asarray(m.altitude_boundaries, float)
     dz = np.asarray(m.deltaz, float)
     tref = t0.copy()
-    tref[opaque] = 0.0
+    tref[opaque] = math.exp(-10) * (1 + 1e-9) if case.get('late') else 0.0      # late: within the licensed cut-off
     dmin = rt.transit_depth(tref, m.planet.fullRadius, m.star.radius, zb[:-1], dz)
     r.check(bool(np.all(np.asarray(d) >= dmin * (1 - 1e-12))), 'clouds-depth-bound', 'clouds/depth',
             got=d, bound=dmin)
@@ -248,8 +260,51 @@ def hist_fn(case):
     return r
 
 
+def intgrid_fn(case):
+    """The same tabulated pressures handed over as an integer array and as a float array: every cloud / haze acts on the
+    same layers with the same strength (and the whole model gives the same transmittance)."""
+    r = core.R(case)
+    P = [1000000, 100000, 10000, 1000, 100, 10][:case['N']]
+    outs = []
+    for dt in (np.int64, np.float64):
+        fx.reset_caches()
+        install()
+        spec = base_spec({'N': case['N'], 'prange': [1e6, 1e-1], 'path': 'old'}, case['contribs'])
+        spec['parray'] = np.array(P, dtype=dt)
+        spec['T'] = ['iso', 1100.0]
+        try:
+            m = fx.build_model(spec)
+            g, d, t, _ = m.model()
+        except Exception as e:
+            r.check(False, 'no-exception', 'intgrid/raised/%s/%s' % (type(e).__name__, dt.__name__), exc=repr(e))
+            return r
+        outs.append((np.asarray(d, float), np.asarray(t, float),
+                     [(type(c).__name__, np.array(c.sigma_xsec, dtype=float)) for c in m.contribution_list]))
+    (d1, t1, s1), (d2, t2, s2) = outs
+    r.eq(t1, t2, 'integer-pressure-grid', 'intgrid/transmittance', rtol=1e-12, atol=1e-300)
+    r.eq(d1, d2, 'integer-pressure-grid', 'intgrid/depth', rtol=1e-12)
+    for (n1, a), (n2, b) in zip(s1, s2):
+        with np.errstate(all='ignore'):
+            same = a.shape == b.shape and bool(np.all((a == b) | (np.abs(a - b) <= 1e-12 * np.abs(b))))
+        r.check(same, 'integer-pressure-grid', 'intgrid/sigma/' + n1, got=a[:, 0], want=b[:, 0])
+    r.observe(d1)
+    r.nontrivial = True
+    return r
+
+
 def explore(ctx):
     thorough = ctx.tier == 'thorough'
+    ig = []
+    for N in (6, 3, 2):
+        for cb in (['abs', ['clouds', 1e3]], ['abs', ['flat', {'flat_mix_ratio': 1e-30}]],
+                   ['abs', ['flat', {'flat_mix_ratio': 1e-30, 'flat_topP': 1e2, 'flat_bottomP': 1e5}]],
+                   ['abs', ['lee', {'lee_mie_mix_ratio': 1e-11, 'lee_mie_radius': 0.05, 'lee_mie_q': 40}]],
+                   ['abs', ['lee', {'lee_mie_mix_ratio': 1e-11, 'lee_mie_radius': 0.05, 'lee_mie_q': 40,
+                                    'lee_mie_topP': 1e2, 'lee_mie_bottomP': 1e5}]],
+                   ['abs', 'ray', ['clouds', 1e4], ['flat', {'flat_mix_ratio': 1e-30}],
+                    ['lee', {'lee_mie_mix_ratio': 1e-11, 'lee_mie_radius': 0.05, 'lee_mie_q': 40}]]):
+            ig.append({'N': N, 'contribs': cb})
+    ctx.run_cases('intgrid_fn', ig, phase='intgrid')
     ccases = []
     for N, pr, wa in itertools.product(NS, PRANGES, [True, False]):
         letters = ['above', 'below'] + ['level%d' % k for k in range(N + 1)] + ['layer%d' % k for k in range(N)] + \
@@ -257,6 +312,8 @@ def explore(ctx):
         for let in letters:
             for path in (['old', 'new'] if thorough else ['old']):
                 ccases.append({'N': N, 'prange': pr, 'cloud': let, 'with_abs': wa, 'path': path})
+                if wa and path == 'old':
+                    ccases.append({'N': N, 'prange': pr, 'cloud': let, 'with_abs': wa, 'path': path, 'late': True})
     ctx.run_cases('clouds_fn', ccases, phase='clouds')
     hcases = []
     ns = (NS if 1 in NS else NS + [1]) if thorough else [5, 2, 3, 13, 1]
